@@ -521,3 +521,16 @@ Definition C18_spec (c : cfg) (aux : bool) (i : parse_in) (o : parse_out) : bool
     | Err e => doc_err e
     end
   else true.
+
+(** *** C07, track level: the parsed track holds exactly the written N / S / E lines.
+    aux: (tick, index) of the N lines, (tick, length) of the S lines, (tick, word) of the E lines. *)
+Definition C07t_spec (aux : bool * list (Z * Z) * list (Z * Z) * list (Z * str)) (o : parse_out) : bool :=
+  let '(wf, nl, sl, el) := aux in
+  on_chart wf o (fun ch _ =>
+    match the_track ch with
+    | Some tr =>
+        Spec.C02.spec_b nl tr
+        && list_eqb ZZ_eqb (map (fun e => (sp_tick e, sp_sus e)) (it_sps tr)) sl
+        && list_eqb Zstr_eqb (map (fun e => (t_tick (te_at e), te_value e)) (it_tevs tr)) el
+    | None => false
+    end).
